@@ -93,7 +93,14 @@ def _judge_plan(mon, rng, nprng, ri, src, dst, kind, label, ttol, stol, wit, sig
             data = (np.arange(H * W).reshape(H, W) % 120 + 1).astype(dtype)
             nodata = rng.choice([0, 0, 121]) if np.dtype(dtype).kind != "f" else rng.choice([None, -1.0, float("nan")])
         out = np.zeros((ny, nx), dtype=dtype)
-        _, e = call(rio_reproject, data, out, src, dst, "nearest", src_nodata=None, dst_nodata=nodata)
+        # the source in another memory layout (Fortran order, reversed / strided view, read-only): same pixels
+        form = gen.ARRAY_FORMS[(H * 7 + W * 3 + ny + len(dtype)) % len(gen.ARRAY_FORMS)]
+        handed = gen.array_form(data.copy(), form)
+        _, e = call(rio_reproject, handed, out, src, dst, "nearest", src_nodata=None, dst_nodata=nodata)
+        mon.obs["warps|source-" + form] += 1
+        if not np.array_equal(handed, data):
+            mon.fail("paste==warp", wit({"dtype": dtype, "why": "the source array was modified by the warp", "array_form": form}), key="input-mutated", cls=dtype)
+            continue
         if e is not None:
             mon.fail("paste==warp", wit({"dtype": dtype, "exc": e}), key="warp-raises", cls=dtype)
             continue
